@@ -296,7 +296,7 @@ QUICK = {
             'c12_san_parse_total_5', 'c10_uci_parse_exact'],
     'C13': ['c13_chain_step_s0_p0_castling', 'c13_chain_push_pop_s0_p0_castling', 'c13_chain_push_pop_s1_p0_ep', 'c13_chain_step_s0_p2_other',
             'c13_chain_step_s5_p3_other', 'c13_chain_eq_s0_pawn_v1', 'c13_chain_eq_s0_king_v0'],
-    'C14': ['c14_outcome_filter_table', 'c14_chain_outcome_precedence', 'c07_outcome_classification_w', 'c07_outcome_lone_king_b', 'c13_chain_step_s5_p4_other', 'c13_chain_step_s5_p4_knight_rep',
+    'C14': ['c14_outcome_filter_table', 'c14_chain_outcome_precedence', 'c07_outcome_classification_w', 'c13_chain_step_s5_p3_other',
             'c13_chain_step_s3_p0_other'],
     'C15': ['c15_leapers_exact', 'c15_between_exact', 'c15_bishop_exact'],
     'C16': ['c16_attackers_exact_w_by_white', 'c16_attackers_exact_w_by_black', 'c16_attackers_exact_b_by_white', 'c16_attackers_exact_b_by_black',
